@@ -109,6 +109,14 @@ def main(tier, seed, replay=None):
         drv = build_driver()
         har, _ = build_harness()
         restat_probe(run, har)
+        import taskleg
+        n2, out_ = build_n2_binary()
+        if n2 is None:
+            run.tie("n2 build", out_[-1000:])
+        else:
+            taskleg.showincludes_leg(run, n2)
+            taskleg.depfile_leg(run, n2)
+            run.coverage["black_box_task_leg"] = "deps=msvc and depfile projects run through the real binary (run_task / read_depfile)"
         n, bad = showincludes_suite(run, random.Random(seed), har, drv, tier)
         run.coverage["showincludes_cases"] = n
         run.coverage["showincludes_disagreements"] = bad
